@@ -311,7 +311,9 @@ def run(ctx):
                        "children ended by next / error / abort / skip answers in seeded orders under FIFO / LIFO / random release orders; non-trivial = a run in which a child returned")
     ctx.cov["clauses_proved"] = ["the return action is a function of the child's final state (K1) and a call is closed by exactly one return in the abstract call/return machine (K3)",
                                  "a caller that waits for its calls cannot end before its children in that machine (K3)"]
-    ctx.cov["clauses_not_proved"] = ["that the engine refines the machine (decided by the monitors)"]
+    ctx.cov["clauses_not_proved"] = ["that the engine refines the machine (decided by the monitors)",
+                                     "parent never ends before its children at full strength: false of model and engine when a client ends the calling act (witness client_end_precedes_child, recorded findings); "
+                                     "proved for histories without such client endings (parent_done_after_children_partial)"]
 
 
 def replay(ctx, data):
